@@ -412,9 +412,13 @@ class CallsMixin:
 
     def b_hasattr(self, args, kwargs, node):
         name = simp(args[1].t)
+        base = args[0]
+        if (isinstance(base, PyObj) and base.tag == 'module') and not self.spec:
+            # an unmodelled module / module-level object: whether it has the attribute is unknown
+            self.p.__dict__.setdefault('opaque', set()).add('hasattr(%s, ...)' % base.name)
+            return K.vbool(self.p.fresh('hasattr!opaque', z3.BoolSort()))
         if not z3.is_string_value(name):
             raise Unsupported('hasattr with symbolic name')
-        base = args[0]
         k = base.kind.inner if isinstance(base.kind, K.Opt) else base.kind
         if isinstance(k, K.Ref):
             key, fk = self.heap_key(k.cls, name.as_string())
